@@ -4,6 +4,9 @@ import PW.Proofs.RoutingLemmas2
 import PW.Proofs.KronFactor
 import PW.Proofs.NoSignal
 import PW.Proofs.Adequacy
+import PW.Proofs.MeasureNoSignal
+import PW.Proofs.NoSignalN
+import Mathlib.Tactic.IntervalCases
 /-!
 # C20 — product spaces are joined only when needed; bystander blocks are untouched
 
@@ -98,6 +101,48 @@ theorem spec_operation_invisible_in_the_rest {a b : Nat} (O ρ : PW.Tensor ℂ)
   rw [PW.Adequacy.toMatrix_applyOn]
   exact PW.Channels.ptrace_unitary _ hU _
 
+/-- **measuring one part is invisible in the rest**: the collapsed (unnormalised, i.e. Born-weighted)
+states of all outcomes of the measured part add up to a state whose reduced state on everything else
+is the one before the measurement — whatever the entanglement.  Only the *reported outcome* carries
+information to the rest. -/
+theorem measurement_invisible_in_the_rest {a b : Nat} (ρ : PW.Tensor ℂ) :
+    ∑ o : Fin a, PW.Channels.ptrace (PW.Adequacy.toMatrix (a := a) (b := b) (PW.Spec.projectOn [a, b] 0 o.val ρ))
+      = PW.Channels.ptrace (PW.Adequacy.toMatrix (a := a) (b := b) ρ) :=
+  PW.Adequacy.ptrace_measurement ρ
+
+/-- **no signalling in a space of any number of subsystems**: a trace-preserving channel on the
+subsystem at position `q` (Kraus operators with `Σ_m Σ_i K_m[i,j]·conj K_m[i,k] = δ_jk` below the cutoff)
+leaves the reduced state of every list `K` of other subsystems unchanged — every number of subsystems,
+every dimension list, every joint state, every entry.  (The bipartite Mathlib form above covers several
+addressed subsystems at once; this one is stated directly on the specification's `krausOn` /
+`reduceTo`.) -/
+theorem channel_invisible_in_any_other_subsystems {R : Type} [CommRing R] [StarRing R]
+    (dims K : List Nat) (q : Nat) (hq : q < dims.length) (hqK : q ∉ K) (Ks : List (PW.Tensor R))
+    (hK : ∀ j < PW.Spec.dimOf2 dims q, ∀ k < PW.Spec.dimOf2 dims q,
+      (Ks.map fun U => ∑ i ∈ Finset.range (PW.Spec.dimOf2 dims q), U [i, j] * PW.conj (U [i, k])).sum
+        = if j = k then 1 else 0)
+    (ρ : PW.Tensor R) (rc : List Nat) :
+    PW.Spec.reduceTo dims K (PW.Spec.krausOn dims [q] Ks ρ) rc = PW.Spec.reduceTo dims K ρ rc :=
+  PW.Spec.reduceTo_krausOn_single dims K q hq hqK Ks hK ρ rc
+
+/-- … in particular a unitary operation -/
+theorem operation_invisible_in_any_other_subsystems {R : Type} [CommRing R] [StarRing R]
+    (dims K : List Nat) (q : Nat) (hq : q < dims.length) (hqK : q ∉ K) (U : PW.Tensor R)
+    (hU : ∀ j < PW.Spec.dimOf2 dims q, ∀ k < PW.Spec.dimOf2 dims q,
+      ∑ i ∈ Finset.range (PW.Spec.dimOf2 dims q), U [i, j] * PW.conj (U [i, k]) = if j = k then 1 else 0)
+    (ρ : PW.Tensor R) (rc : List Nat) :
+    PW.Spec.reduceTo dims K (PW.Spec.applyOn dims [q] U ρ) rc = PW.Spec.reduceTo dims K ρ rc :=
+  PW.Spec.reduceTo_applyOn_single dims K q hq hqK U hU ρ rc
+
+/-- non-vacuity: the bit flip on the first of three subsystems meets the hypothesis -/
+example : let U : PW.Tensor ℂ := fun idx => if idx = [0, 1] ∨ idx = [1, 0] then 1 else 0
+    ∀ j < PW.Spec.dimOf2 [2, 3, 2] 0, ∀ k < PW.Spec.dimOf2 [2, 3, 2] 0,
+      ∑ i ∈ Finset.range (PW.Spec.dimOf2 [2, 3, 2] 0), U [i, j] * PW.conj (U [i, k]) = if j = k then 1 else 0 := by
+  intro U j hj k hk
+  have hd : PW.Spec.dimOf2 [2, 3, 2] 0 = 2 := by decide
+  rw [hd] at hj hk ⊢
+  interval_cases j <;> interval_cases k <;> simp [U, Finset.sum_range_succ, PW.conj_eq_star]
+
 end PW.Props.C20
 
 #print axioms PW.Props.C20.bystander_untouched_by_combine
@@ -117,3 +162,6 @@ end PW.Props.C20
 #print axioms PW.Props.C20.actions_on_different_subsystems_commute
 #print axioms PW.Props.C20.channel_invisible_in_the_rest
 #print axioms PW.Props.C20.spec_operation_invisible_in_the_rest
+#print axioms PW.Props.C20.measurement_invisible_in_the_rest
+#print axioms PW.Props.C20.operation_invisible_in_any_other_subsystems
+#print axioms PW.Props.C20.channel_invisible_in_any_other_subsystems
